@@ -33,6 +33,8 @@ impl GaugeFn for AtomicU64 {
     fn increment(&self, value: f64) {
         loop {
             let result = self.fetch_update(Ordering::AcqRel, Ordering::Relaxed, |curr| {
+                #[cfg(metrics_verif)]
+                crate::verif::point("atomics.gauge.cas");
                 let input = f64::from_bits(curr);
                 let output = input + value;
                 Some(output.to_bits())
@@ -47,6 +49,8 @@ impl GaugeFn for AtomicU64 {
     fn decrement(&self, value: f64) {
         loop {
             let result = self.fetch_update(Ordering::AcqRel, Ordering::Relaxed, |curr| {
+                #[cfg(metrics_verif)]
+                crate::verif::point("atomics.gauge.cas");
                 let input = f64::from_bits(curr);
                 let output = input - value;
                 Some(output.to_bits())
